@@ -378,9 +378,25 @@ type xshape struct {
 	global   []window // global windows to choose from (nil = none)
 	graphs   int      // number of FROM graphs (data partitioned by a skeleton choice), 0 = 1
 	note     string
+	filter   string // FILTER clauses appended to the pattern, e.g. "filter isTemporal(?p)"
+	keep     func(e env, data []*dspec) bool // the solutions the FILTER keeps
 }
 
 func xq(c qclause) xclause { return xclause{qclause: c, lo: -1, hi: -1} }
+
+func xselectTextF(cs []xclause, graphs string, g window, filter string) string {
+	q := xselectText(cs, graphs, g)
+	if filter == "" {
+		return q
+	}
+	// insert the FILTER clauses before the closing brace of the pattern
+	for i := len(q) - 1; i >= 0; i-- {
+		if q[i] == '}' {
+			return q[:i] + ". " + filter + " " + q[i:]
+		}
+	}
+	return q
+}
 
 func xselectText(cs []xclause, graphs string, g window) string {
 	bs := xbindingsOf(cs)
@@ -463,6 +479,30 @@ var c03XShapes = []xshape{
 	{cs: []xclause{{qclause: qclause{s: bS, p: cA, o: bO, at: "t"}, lo: -1, hi: -1}, {qclause: qclause{s: bZ, p: pos{cb: 'b'}, o: cA}, oAtBind: "t", lo: -1, hi: -1}}, okinds: []int{0, 4}, temporal: true},
 	// 31: ... and the other way round
 	{cs: []xclause{{qclause: qclause{s: bZ, p: pos{cb: 'b'}, o: cA}, oAtBind: "t", lo: -1, hi: -1}, {qclause: qclause{s: bS, p: cA, o: bO, at: "t"}, lo: -1, hi: -1}}, okinds: []int{0, 4}, temporal: true},
+	// 32..36: FILTER clauses (isTemporal / isImmutable on a predicate binding and on a
+	// predicate-valued object binding; latest on the predicate binding of an open clause)
+	{cs: []xclause{xq(qclause{s: bS, p: bP, o: bO})}, okinds: []int{0}, temporal: true, filter: "filter isTemporal(?p)",
+		keep: func(e env, _ []*dspec) bool { return e["p"].pk == 1 }},
+	{cs: []xclause{xq(qclause{s: bS, p: bP, o: bO})}, okinds: []int{0, 1}, temporal: true, filter: "filter isImmutable(?p)",
+		keep: func(e env, _ []*dspec) bool { return e["p"].pk == 0 }},
+	{cs: []xclause{xq(qclause{s: bS, p: cA, o: bO})}, okinds: []int{3, 4}, filter: "filter isTemporal(?o)",
+		keep: func(e env, _ []*dspec) bool { return e["o"].kind == 1 && e["o"].pk == 1 }},
+	{cs: []xclause{xq(qclause{s: bS, p: bP, o: bO})}, okinds: []int{0}, temporal: true, filter: "filter latest(?p)",
+		keep: func(e env, data []*dspec) bool {
+			if e["p"].pk != 1 {
+				return false
+			}
+			r := true
+			for _, d := range data {
+				if d.pk == 1 && anchors[d.pa].After(anchors[e["p"].pa]) {
+					r = verif.And(r, d.pb != e["p"].b)
+				}
+			}
+			return r
+		}},
+	// 36: a FILTER on the first clause does not leak into the lookups of the second
+	{cs: []xclause{xq(qclause{s: bS, p: bP, o: bO}), xq(qclause{s: bO, p: pos{bind: "q"}, o: bZ})}, okinds: []int{0}, temporal: true, filter: "filter isTemporal(?p)",
+		keep: func(e env, _ []*dspec) bool { return e["p"].pk == 1 }},
 }
 
 // newStoreGraphs creates a store with the named graphs and distributes the
@@ -520,7 +560,7 @@ func HarnessC03Extract() {
 	} else {
 		st, _ = newStoreWith("?g", dtriples(data))
 	}
-	q := xselectText(sh.cs, graphs, g)
+	q := xselectTextF(sh.cs, graphs, g, sh.filter)
 	var tbl *table.Table
 	var err error
 	if !noPanic("C03/extract/no-panic", func() { tbl, err = runBQL(st, q, 0, 10) }) {
@@ -543,7 +583,13 @@ func HarnessC03Extract() {
 		}
 		verif.Observe("table", tbl.String())
 	}
-	checkTableIsSolutions(xsolutions(sh.cs, data, g), xbindingsOf(sh.cs), tbl, "C03/extract")
+	sols := xsolutions(sh.cs, data, g)
+	if sh.keep != nil {
+		for i := range sols {
+			sols[i].cond = verif.And(sols[i].cond, sh.keep(sols[i].e, data))
+		}
+	}
+	checkTableIsSolutions(sols, xbindingsOf(sh.cs), tbl, "C03/extract")
 }
 
 // c03XClass names the witness class of a recorded defect the shape and data
